@@ -108,9 +108,15 @@ def gen_case(r, maxports=4, globs=True, allow_collisions=True):
         return l
     nports = r.randint(1, maxports)
     for pi in range(nports):
-        kind = r.choice(['dict', 'dict', 'dictpath', 'leaf', 'full', 'glob', 'out', 'nested', 'globdict', 'starstar', 'deepsplit']
-                        if globs else ['dict', 'dict', 'dictpath', 'leaf', 'full', 'out', 'nested', 'deepsplit'])
+        kind = r.choice(['dict', 'dict', 'dictpath', 'leaf', 'full', 'glob', 'out', 'nested', 'globdict', 'starstar', 'deepsplit', 'unwired']
+                        if globs else ['dict', 'dict', 'dictpath', 'leaf', 'full', 'out', 'nested', 'deepsplit', 'unwired'])
         port = 'P%d' % pi
+        if kind == 'unwired':
+            # a port the topology does not mention at all: wired to a store of its own name next to the process
+            leaves[ploc + (port, 'w')] = fresh()
+            schema[port] = {'w': {'_default': leaves[ploc + (port, 'w')]}}
+            kinds.append(kind)
+            continue
         B = r.choice(branches)
         bl = [l for l in leaf_nodes if l[:-1] == B]
         if not allow_collisions:
@@ -162,6 +168,10 @@ def gen_case(r, maxports=4, globs=True, allow_collisions=True):
             if not t:
                 del schema[port]
                 continue
+            if r.random() < 0.3:
+                # one more variable that the dictionary topology does not name: wired to a node of its own name
+                leaves[ploc + ('u%d' % pi,)] = fresh()
+                schema[port]['u%d' % pi] = {'_default': leaves[ploc + ('u%d' % pi,)]}
             topo[port] = t
         elif kind == 'nested':
             par = B[:-1]
@@ -226,12 +236,13 @@ def gen_case(r, maxports=4, globs=True, allow_collisions=True):
                 schema[port] = {'*': {'x': {'_default': 7}, 'y': {'_default': 8}}}
                 where = r.choice(['port', 'star', 'both'])
                 full = list(rel_path(ploc, G))
+                ymap = {} if r.random() < 0.3 else {'y': ['y']}     # (y may be left unnamed: wired to the child's y)
                 if where == 'port' or (where == 'both' and len(full) < 2):
-                    topo[port] = {'_path': full, '*': {'x': ['bd', 'x'], 'y': ['y']}}
+                    topo[port] = {'_path': full, '*': dict({'x': ['bd', 'x']}, **ymap)}
                 elif where == 'star':
-                    topo[port] = {'*': {'_path': full, 'x': ['bd', 'x'], 'y': ['y']}}
+                    topo[port] = {'*': dict({'_path': full, 'x': ['bd', 'x']}, **ymap)}
                 else:
-                    topo[port] = {'_path': full[:-1], '*': {'_path': full[-1:], 'x': ['bd', 'x'], 'y': ['y']}}
+                    topo[port] = {'_path': full[:-1], '*': dict({'_path': full[-1:], 'x': ['bd', 'x']}, **ymap)}
         kinds.append(kind)
     if not schema:
         tgt = leaf_nodes[0]
